@@ -22,6 +22,7 @@ def main():
     ms = exact.catalogue(rng, Ms=(2, 3), per_M=6 if not thorough else 12)
     for k in range(4 if not thorough else 30):
         ms.append(exact.random_model(rng, "R%d" % k, rng.choice([2, 3, 4])))
+    ms += exact.with_phases(rng, ms)[: (4 if not thorough else 24)]
     for m in ms:
         M = m["M"]
         m["gf"] = [[i, j] for i in range(M) for j in range(M)]
@@ -31,7 +32,7 @@ def main():
         pv.log("INFRA: Lehmann.tla self-check %s failed" % res.violated)
         sys.exit(2)
     betas = ["0.05", "1.0", "7.3", "400.0"]
-    recs, crashed = pv.run_driver_resilient(exe, [exact.scenario(m, pred[m["id"]], queries=[{"q": "index"}]) for m in ms], timeout=3000)
+    recs, crashed = exact.run_split(exe, [exact.scenario(m, pred[m["id"]], queries=[{"q": "index"}]) for m in ms], ms)
     tabs = {r["id"]: r["tab"] for r in recs if r.get("e") == "Q" and "tab" in r}
     scen = []
     for m in ms:
@@ -63,7 +64,7 @@ def main():
         # Matsubara sum: many frequencies for a few components
         qs.append({"q": "gf", "beta": "3.0", "pairs": pairs[: min(len(pairs), 6)], "ns": list(range(-600, 600)), "taus": [repr(3.0 * f) for f in (1.0 / 7, 0.5, 6.0 / 7)], "tag": "sum"})
         gen.append(dict(g, queries=qs))
-    recs, crashed = pv.run_driver_resilient(exe, scen + gen, timeout=3000)
+    recs, crashed = exact.run_split(exe, scen + gen, ms)
     byid = {}
     for r in recs:
         if r.get("e") == "Q":
@@ -92,7 +93,7 @@ def main():
                     c.evaluations += 1
                     if not (abs(got - want) <= 1e-8 + 1e-9 * abs(want)):       # also catches NaN
                         c.violation("model %s beta=%s: G_%d%d(tau=%s) = %s, definition gives %s" % (
-                            json.dumps({k: m[k] for k in ("M", "eps", "U", "rot", "bog")}), beta, o["i"], o["j"], tau, mp.nstr(got, 12), mp.nstr(want, 12)),
+                            json.dumps({k: m[k] for k in ("M", "eps", "U", "rot", "bog", "ph")}), beta, o["i"], o["j"], tau, mp.nstr(got, 12), mp.nstr(want, 12)),
                             dict(rep, component=[o["i"], o["j"]], tau=tau), cls="tau")
                         ok = False
                         break
@@ -189,7 +190,7 @@ def main():
             else:
                 c.traces += 1
                 c.nontriv("rel %s %s" % (g["id"], r["beta"]))
-    c.sample({"exact_model": {k: ms[1][k] for k in ("M", "eps", "U", "rot", "bog")}, "betas": betas, "general_model": gen[2]["build"]})
+    c.sample({"exact_model": {k: ms[1][k] for k in ("M", "eps", "U", "rot", "bog", "ph")}, "betas": betas, "general_model": gen[2]["build"]})
     c.rule = "exact family: %d models x 4 betas x all (i,j) x 5 imaginary times; general models: %d x 3 betas x all relations; non-trivial = distinct (model, component, beta) with data / (model, beta)" % (len(ms), len(gen))
     c.trusted = ["TLC", "tools/exact.py comparator", "python relational arithmetic"]
     c.assumptions = ["Matsubara-sum duality for general models uses 1200 frequencies with analytic 1/(i w) tail: tolerance 3e-3"]
